@@ -273,6 +273,8 @@ def _classify_call_arg(prog: Program, mod, node: ast.expr, call: ast.Call, t: st
 def _list_then_sort(call: ast.Call) -> Tuple[str, str]:
     """x = list(S) ... x.sort() with no other use of x in between."""
     st = parent(call)
+    while isinstance(st, ast.IfExp) and call is not st.test:
+        call, st = st, parent(st)  # x = [a] if c else list(S): the list() is (one arm of) the value bound to x
     if not (isinstance(st, (ast.Assign, ast.AnnAssign)) and isinstance((st.targets[0] if isinstance(st, ast.Assign) else st.target), ast.Name)):
         return "bad", "is converted with list(), which freezes the hash order"
     name = (st.targets[0] if isinstance(st, ast.Assign) else st.target).id
